@@ -66,6 +66,9 @@ func peerHandshake(conn net.Conn, sw *Switch) (*NodeInfo, error) {
 	if err2 != nil {
 		return nil, err2
 	}
+	if peerNodeInfo.PubKey == nil {
+		return nil, fmt.Errorf("Ignoring connection announcing no pubkey")
+	}
 	if err := sw.AuthByCA(peerNodeInfo); err != nil {
 		return nil, err
 	}
